@@ -76,7 +76,9 @@ class Normaliser:
                         counts[x.id] = counts.get(x.id, 0) + 1
             if isinstance(n, (ast.Assign, ast.AnnAssign)) and getattr(n, 'value', None) is not None:
                 t = n.targets[0] if isinstance(n, ast.Assign) else n.target
-                if isinstance(t, ast.Name) and (self._pure_chain(n.value) or self._predicate(n.value)):
+                # (pure chains are folded, when that is sound, by sa.normalise on the syntax tree: what is left here
+                # as a local is an alias that may not follow its target, and is not looked through)
+                if isinstance(t, ast.Name) and self._predicate(n.value):
                     vals[t.id] = n.value
         args = fn_node.args
         params = {a.arg for a in args.posonlyargs + args.args + args.kwonlyargs}
